@@ -676,7 +676,11 @@ def _run_rt(res, fs, asc, kn, fmt, path, faults, shape, score):
     # the written text uses the vocabulary of its format: what another reader needs to give every element a length
     import re as _re
 
-    text_ = fs.get(path).decode("utf-8", "replace")
+    try:
+        text_ = fs.get(path).decode("utf-8", "replace")
+    except Exception:
+        res.violation("D1-durable", "save", "save_%s returned normally (%s) but there is no file at the path" % (fmt, "after an injected fault" if faulted else "no fault"), site=fmt + ":no-file")
+        return
     if fmt == "mei":
         odd = sorted(set(v for v in _re.findall(r'\sdur="([^"]*)"', text_) if v not in ("long", "breve", "1", "2", "4", "8", "16", "32", "64", "128", "256", "512", "1024", "2048")))
         if odd:
